@@ -60,3 +60,54 @@ def run(ctx, oracles=('inv',)):
             if fails:
                 sig, what = fails[0]
                 ctx.oracle_fail(sig, what, {'text': text, 'auto_claim': auto, 'ops': ops, 'oracles': list(oracles)})
+
+
+HANDOVER_TEXTS = [
+    '2000-01-01 *\n    aa: 1\n    ; c\n    Assets:A  1 USD\n    Assets:B\n',
+    '2000-01-01 *\n    aa: 1\n    ; c\n    ; d\n    Assets:A  1 USD\n2000-01-02 close Assets:A\n',
+    '2000-01-01 *\n    Assets:A  1 USD\n    ; c\n    Assets:B\n',
+]
+
+
+def handover_histories(maxlen=5):
+    """A comment that sits between two models / two repeated fields is handed back and forth: all sequences (no
+    immediate repetition) of claim/unclaim calls of the two neighbours, surrounding and interleaving family."""
+    d0 = ['raw_directives_with_comments', 0]
+    for ti, text in enumerate(HANDOVER_TEXTS):
+        if ti < 2:
+            upper = d0 + ['raw_meta_with_comments', 0]
+        else:
+            upper = d0 + ['raw_postings_with_comments', 0]
+        lower = d0 + ['raw_postings_with_comments', 0 if ti < 2 else 1]
+
+        def call(path, m):
+            return {'k': 'call', 'kind': 'claim' if m.startswith('claim') else 'unclaim', 'path': path, 'm': m, 'args': [], 'parent': []}
+        fam_s = [call(upper, 'claim_trailing_comment'), call(upper, 'unclaim_trailing_comment'),
+                 call(lower, 'claim_leading_comment'), call(lower, 'unclaim_leading_comment')]
+        fam_i = [_op(d0, 'raw_meta_with_comments', 'claim_interleaving_comments'), _op(d0, 'raw_meta_with_comments', 'unclaim_interleaving_comments'),
+                 _op(d0, 'raw_postings_with_comments', 'claim_interleaving_comments'), _op(d0, 'raw_postings_with_comments', 'unclaim_interleaving_comments')]
+        for fam in (fam_s, fam_i):
+            def rec(prefix, last):
+                if prefix:
+                    yield prefix
+                if len(prefix) == maxlen:
+                    return
+                for k, o in enumerate(fam):
+                    if k != last:
+                        yield from rec(prefix + [o], k)
+            for seq in rec([], -1):
+                if len(seq) >= 3:
+                    yield text, seq
+
+
+def run_handover(ctx, oracles, maxlen=5):
+    for text, ops in handover_histories(maxlen):
+        try:
+            fails, outcomes = session.run_history(text, False, ops, list(oracles))
+        except Exception as e:
+            fails, outcomes = [(f'claim-history-raises:{type(e).__name__}', repr(e)[:200])], []
+        ctx.case(('handover', text[:24], tuple((o['m'], tuple(o['path'][-2:])) for o in ops), tuple(x[-1] if x[0] == 'exc' else 'ok' for x in outcomes)))
+        ctx.count('handover:len%d' % len(ops))
+        if fails:
+            sig, what = fails[0]
+            ctx.oracle_fail(sig, what, {'text': text, 'auto_claim': False, 'ops': ops, 'oracles': list(oracles)})
